@@ -220,6 +220,25 @@ theorem keeps (r : RunSt) (op : Op) (hg : Good r.st) (hop : opOk op = true) : Ke
         simp only [Cfg.ofRun, Cfg.step, h.2.2.1, h.2.2.2.1, h.2.2.2.2.1, h.2.2.2.2.2.1, h.2.2.2.2.2.2.1,
           h.2.2.2.2.2.2.2]
         rfl
+  | streamExitAt k =>
+    cases hs : r.streams.find? (·.1 == k) with
+    | none =>
+      refine keeps_direct r { r with st := cut r.st } _ .badop (by simp [runOp, hs]) rfl rfl hg0 ?_
+      simp [Cfg.ofRun, Cfg.step, cut]
+    | some fr =>
+      refine keeps_direct r { r with st := Chan.streamExit k fr.2 (cut r.st),
+                                     streams := r.streams.eraseP (·.1 == k) } _ .unit
+        (by simp [runOp, hs]) ?_ ?_ ?_ ?_
+      · exact (streamExit_fields k fr.2 (cut r.st)).1
+      · exact (streamExit_fields k fr.2 (cut r.st)).2.1
+      · have h := streamExit_fields k fr.2 (cut r.st)
+        refine ⟨?_, by rw [h.2.2.1]; exact hg.chunk, by rw [h.2.2.2.1]; exact hg.slice, ?_⟩
+        · unfold WF; rw [h.2.1]; exact hg.wf
+        · rw [h.2.2.2.2.2.2.1, h.2.2.2.2.2.2.2]; exact hg.slow
+      · have h := streamExit_fields k fr.2 (cut r.st)
+        simp only [Cfg.ofRun, Cfg.step, h.2.2.1, h.2.2.2.1, h.2.2.2.2.1, h.2.2.2.2.2.1, h.2.2.2.2.2.2.1,
+          h.2.2.2.2.2.2.2]
+        rfl
   | deathEnter p e =>
     exact keeps_direct r _ _ .unit rfl rfl rfl ⟨hg.wf, hg.chunk, hg.slice, hg.slow⟩ rfl
   | deathExit =>
